@@ -12,6 +12,7 @@ import LithiumModel.Cmdline
 import Generated.CmdlineTable
 import LithiumModel.PairsMove
 import LithiumModel.JsSpec
+import LithiumModel.Rewrite
 import LithiumModel.Interest
 import LithiumModel.TempDir
 
@@ -312,6 +313,21 @@ def step (line : String) : String :=
     | some d => encList (Lines.splitLines d)
     | none => "bad-op"
   | ["load", kind, d] => cmdLoad kind d
+  | ["rwloop", rep, final, cs, passes] =>
+    -- round skeleton of the rewriting strategies: passes = t1:r1,t2:r2,... as recorded from the real pass function
+    let rp : Option Strat.Repeat := match rep with
+      | "always" => some .always | "last" => some .last | "never" => some .never | _ => none
+    let ps : List (Nat × Nat) := (passes.splitOn ",").filterMap (fun x =>
+      match x.splitOn ":" with
+      | [a, b] => match a.toNat?, b.toNat? with
+        | some a, some b => some (a, b)
+        | _, _ => none
+      | _ => none)
+    match rp, final.toNat?, cs.toNat? with
+    | some rp, some f, some c =>
+      let r := Strat.rwLoop rp f (fun k => ps.getD k (0, 0)) (ps.length + 1) 0 c 0
+      s!"{r.1} {r.2.1} {if r.2.2 then 1 else 0}"
+    | _, _, _ => "bad-op"
   | ["jsspec", d] =>
     -- the reference segmentation of C16: `offset:length` of every string character
     match decBytes d with
